@@ -3,7 +3,7 @@ from __future__ import annotations
 
 import z3
 
-from .common import And, Or, _s, assume_strict, build, get_delim, longest_match, mk_recs, no_match, substr_from, sym_eq, wide_recs
+from .common import And, Or, _s, assume_strict, build, get_delim, longest_match, mk_recs, no_match, substr_from, sym_eq, wide_recs, default_warm
 
 EXPLANATION = (
     "Converter.__init__/_index/add_record/parse_uri/compress/is_uri/format_curie are executed on symbolic records "
@@ -12,7 +12,7 @@ EXPLANATION = (
     "independent oracle formula: None iff no registered URI prefix is a prefix of u, otherwise canonical prefix of "
     "the owner of the longest matching URI prefix ++ delimiter ++ u[len(prefix):]. Because record contents are "
     "symbolic, one shape covers every overlap lattice and every permutation of a concrete record list; incremental "
-    "jobs additionally build the same converter through add_record from every split point, 'interleaved' jobs also query the converter between the additions, the 'chained' job queries a converter after it has been an input of chain().")
+    "jobs additionally build the same converter through add_record from every split point, 'interleaved' jobs also query the converter between the additions, the 'chained' job queries a converter after it has been an input of chain(), 'used' jobs query a converter that has answered an independent query before.")
 BOUNDS = dict(records="<= 5 symbolic (quick <= 3); thorough also 1 symbolic among 12 fixed ones", uri_prefix_synonyms_per_record="<= 2", strings="unbounded length, full z3 alphabet",
               delimiter="':' and an arbitrary non-empty symbolic string")
 OUTSIDE = ["more than 5 records or more than 2 URI-prefix synonyms per record", "non-strict converters",
@@ -33,7 +33,7 @@ def jobs(tier):
              ("construct", [[0, 0], [0, 0], [0, 0]], False),
              ("incremental", [[0, 1], [0, 0]], False), ("incremental", [[0, 0], [0, 0]], True),
              ("interleaved", [[0, 0], [0, 0]], False), ("interleaved", [[0, 1], [0, 0]], True),
-             ("incremental", [[0, 0], [0, 1]], False), ("chained", [[0, 0], [0, 0]], False)]
+             ("incremental", [[0, 0], [0, 1]], False), ("chained", [[0, 0], [0, 0]], False), ("used", [[0, 0], [0, 0]], False), ("used", [[0, 1]], False)]
     for fn, sh, sd in quick:
         J(fn, sh, sd)
     if tier == "thorough":
@@ -65,6 +65,9 @@ def build(job):  # noqa: F811 - harness entry point (shadows common.build delibe
         u = eng.var("uri")
         if fn == "construct":
             c = _build(eng, recs, delim)
+        elif fn == "used":
+            c = _build(eng, recs, delim)
+            default_warm(eng)(c)        # the converter has answered an unrelated query before
         elif fn == "chained":
             # the queried converter has been an *input* of chain() together with a converter that holds another URI
             # prefix for the same CURIE prefix; afterwards it must still answer by what its own records register
